@@ -186,7 +186,11 @@ def Breaker.mark (b : Breaker) (now : Nat) (m : Mark) : Breaker := { b with rw :
 
 /-! ## entry points as an event-list decision table -/
 
-inductive Outcome | ok | errA | errU | panic     -- what the request does: nil / acceptable error / other error / panic
+/-- what the request does: returns nil / an error the custom predicate accepts / another error /
+`ErrServiceUnavailable` itself (a nested, open breaker downstream) / an error wrapping it with `%w` / panics.
+The last two are ordinary unacceptable errors for the breaker: the call was ADMITTED, so the fallback must not
+run and the error must come back unchanged — although it `errors.Is` the breaker's own rejection error. -/
+inductive Outcome | ok | errA | errU | brk | wbrk | panic
   deriving Repr, DecidableEq, Inhabited
 
 structure Entry where
@@ -194,7 +198,10 @@ structure Entry where
   custom      : Bool     -- DoWithAcceptable / DoWithFallbackAcceptable (else defaultAcceptable: err == nil)
   deriving Repr, DecidableEq, Inhabited
 
-inductive Ret | nil | errA | errU | unavailable | fallbackResult | ctxErr
+/-- what the caller gets back: the request's own result (by identity: `brk` is the request's own
+`ErrServiceUnavailable`, as opposed to `unavailable`, the breaker's rejection), the rejection error, the
+fallback's result, or the context's error -/
+inductive Ret | nil | errA | errU | brk | wbrk | unavailable | fallbackResult | ctxErr
   deriving Repr, DecidableEq, Inhabited
 
 inductive Ev
@@ -210,12 +217,16 @@ def acceptable (custom : Bool) : Outcome → Bool
   | .ok => true
   | .errA => custom
   | .errU => false
+  | .brk => false
+  | .wbrk => false
   | .panic => false
 
 def Outcome.ret : Outcome → Ret
   | .ok => .nil
   | .errA => .errA
   | .errU => .errU
+  | .brk => .brk
+  | .wbrk => .wbrk
   | .panic => .nil
 
 /-- `doReq` (through loggedThrottle.doReq and circuitBreaker.Do*): events in program order. -/
